@@ -172,9 +172,17 @@ class Run:
         if force or len(self.samples) < 12:
             self.samples.append(s)
 
-    def floor(self, what, count, minimum):
-        """A rule matching fewer sites than confirmed by hand must not pass."""
+    def floor(self, what, count, minimum, defer=False):
+        """A rule matching fewer sites than confirmed by hand must not pass.
+        defer=True: the shortfall is kept like an attempt() error - the
+        remaining rules run and a violation they establish (the table entry
+        that is now missing) is what the check reports."""
         self.analysed[what] = count
+        if count < minimum and defer:
+            self.deferred.append(
+                "floor: %s = %d, below the %d confirmed on the pinned tree"
+                % (what, count, minimum))
+            return
         if count < minimum:
             raise AnalysisError(
                 "floor: %s = %d, below the %d confirmed on the pinned tree "
